@@ -132,12 +132,26 @@ func verifHarness_C11_matchEquiv() {
 	} else {
 		r = New()
 	}
-	grouped := verifChoice("grouped", 2) == 1
+	groupedN := verifChoice("grouped", 3) // 0 no group, 1 one group, 2 two nested groups
+	grouped := groupedN == 1
 	P := verifC11Input("P")
 	verifAssume(verifNoMeta(P))
 	var rt *Route
 	want := ""
-	if grouped {
+	if groupedN == 2 {
+		G := verifC11Input("G")
+		verifAssume(verifNoMeta(G))
+		n2 := verifLen("G2_len", 0, 1)
+		G2 := verifString("G2", n2)
+		verifAssume(verifAlphabet(G2, "/ a"))
+		k := verifCatch(func() {
+			r.Group(G, func() { r.Group(G2, func() { rt = r.GET(P, func(c *Context) {}) }) })
+		})
+		verifAssert(k == "", "registration of a fixed path inside nested groups does not panic")
+		inner := verifSpecNorm(verifSpecNorm(G, strict)+verifSpecNorm(G2, strict), strict)
+		_ = inner
+		want = verifSpecNorm(verifSpecNorm(G, strict)+verifSpecNorm(G2, strict)+verifSpecNorm(P, strict), strict)
+	} else if grouped {
 		G := verifC11Input("G")
 		verifAssume(verifNoMeta(G))
 		k := verifCatch(func() {
